@@ -61,6 +61,8 @@ impl MT292 {
             });
         }
 
+        crate::parser::utils::verify_parser_complete(&parser)?;
+
         Ok(MT292 {
             field_20,
             field_21,
